@@ -468,7 +468,9 @@ def bc_clause(vals, kind, bc, dir, clause=None):
         data = to_pdata_n(kind, W, n)
         d = np.array([[dir[0]] * n, [dir[1]] * n], dtype=float)
         out = model.namedBC(bc, d, data, prm)
-        r1, V1, p1 = np.asarray(out[0], float), np.asarray(out[1], float), np.asarray(out[2], float)
+        r1 = np.broadcast_to(np.asarray(out[0], float), (n,))
+        p1 = np.broadcast_to(np.asarray(out[2], float), (n,))
+        V1 = np.broadcast_to(np.asarray(out[1], float), (2, n))
         un0, un1 = W[1] * dir[0] + W[2] * dir[1], V1[0] * dir[0] + V1[1] * dir[1]
         ut0, ut1 = -W[1] * dir[1] + W[2] * dir[0], -V1[0] * dir[1] + V1[1] * dir[0]
         show(kind=kind, bc=bc, dir=dir, W=W, out=[r1[0], V1[0, 0], V1[1, 0], p1[0]], params=prm)
@@ -1112,3 +1114,27 @@ def purity_clause(vals, clause, integrator=None):
         show(integrator=name, residual_its=its_r, average_its=its_a, difference=float(np.max(np.abs(a - b))))
         return bool(np.all(a == b)) and its_r == [0, 3, 6] and its_a == [0, 2, 4, 6]
     return True
+
+
+# --------------------------------------------------------------------------------------
+# C14
+
+def shift_clause(vals, kind, num, limiter):
+    import flowdyn.mesh as mesh, flowdyn.modeldisc as md, flowdyn.field as field
+    ok = True
+    for n in (1, 2, 3, 4, 5, 6, 9):
+        for flux in ([None] if kind in ("convection", "burgers") else list(build_model(kind, vals)._numfluxdict.dict.keys())):
+            model = build_model(kind, vals)
+            msh = mesh.unimesh(ncell=n, length=1.3, x0=0.2)
+            disc = md.fvm1d(model, msh, _make_num(num, limiter, 0.2), numflux=flux)
+            P = _random_prim(kind, n, seed=10 + n)
+            Q = model.prim2cons(P)
+            r1 = [x.copy() for x in disc.rhs(field.fdata(model, msh, Q))]
+            for k in (1, 2):
+                r2 = disc.rhs(field.fdata(model, msh, [np.roll(q, k) for q in Q]))
+                for a, b in zip(r1, r2):
+                    if not close(np.roll(a, k), b, rtol=1e-10):
+                        show(kind=kind, num=num, limiter=limiter, flux=flux, n=n, shift=k,
+                             max_diff=float(np.max(np.abs(np.roll(a, k) - b))))
+                        ok = False
+    return ok
